@@ -603,3 +603,24 @@ pub fn make(fl: Flavour, cap: usize, async_ctor: bool) -> (TxH, RxH) {
     }
   }
 }
+
+// ------------------------------------------------------------------------------------------
+// Broadcast spmc (every receiver sees every value; `T: Clone`). Not part of `Flavour`: its
+// semantics differ from the point-to-point channels and it has its own engine (C07).
+// ------------------------------------------------------------------------------------------
+chan_adapters!(
+  SpmcSTx, SpmcATx, SpmcSRx, SpmcARx,
+  fibre::spmc::BoundedSyncSender<Val>, fibre::spmc::BoundedAsyncSender<Val>,
+  fibre::spmc::BoundedSyncReceiver<Val>, fibre::spmc::BoundedAsyncReceiver<Val>,
+  batch = yes, clone_tx = no, clone_rx = yes, stream = yes, meta = full
+);
+
+pub fn make_spmc(cap: usize, async_ctor: bool) -> (TxH, RxH) {
+  if async_ctor {
+    let (t, r) = fibre::spmc::bounded_async::<Val>(cap);
+    (TxH::A(Box::new(SpmcATx(t))), RxH::A(Box::new(SpmcARx(r))))
+  } else {
+    let (t, r) = fibre::spmc::bounded::<Val>(cap);
+    (TxH::S(Box::new(SpmcSTx(t))), RxH::S(Box::new(SpmcSRx(r))))
+  }
+}
